@@ -26,8 +26,8 @@ type ledgerCase struct {
 
 // Ledger runs the C04/C05 workload and reports violations of property `which`.
 func Ledger(run *vh.Run, which string) {
-	nWorlds := run.N(4, 24)
-	blocksPer := run.N(28, 160)
+	nWorlds := run.N(8, 32)
+	blocksPer := run.N(60, 400)
 	variants := []ledgerCase{{MaxGas: -1, BaseFee: 1_000_000_000}, {MaxGas: 1_200_000, BaseFee: 1_000_000_000},
 		{MaxGas: -1, BaseFee: 7}, {MaxGas: 3_000_000, BaseFee: 50_000_000_000}}
 	for wi := 0; wi < nWorlds; wi++ {
